@@ -2354,6 +2354,9 @@ Error Assembler::_emit(InstId inst_id, const Operand_& o0, const Operand_& o1, c
         uint64_t imm = o1.as<Imm>().value_as<uint64_t>();
 
         opcode.reset(op_data.opcode);
+        if (imm >= 64)
+          goto InvalidImmediate;
+
         if (imm >= 32) {
           if (!x)
             goto InvalidImmediate;
